@@ -380,6 +380,12 @@ func (h *harness) compoundCases(r *gen.Rand, n int) {
 				k := 1 + r.Intn(len(rp.Branches)-1)
 				rp.Branches = append(append([]string(nil), rp.Branches[k:]...), rp.Branches[:k]...)
 			}
+			for p, b := range rp.Branches {
+				// zoekt reads the query branch "HEAD" as "the first branch": the name stays on the first one
+				if b == "HEAD" && p > 0 {
+					rp.Branches[0], rp.Branches[p] = rp.Branches[p], rp.Branches[0]
+				}
+			}
 			rp.ID = uint32(100*i + j + 1)
 			rp.Priority = gen.Pick(r, []string{"", "1", "5", "2.5"})
 			var docs []docSpec
